@@ -28,7 +28,7 @@ import os
 import random
 import sys
 
-SCALARS = ('int', 'double', 'string')
+SCALARS = ('int', 'double', 'string', 'size_t')
 
 
 def ptype_iface(t, classes):
@@ -181,6 +181,17 @@ def make_universe(seed, module, void_static=False):
             add({'kind': 'method', 'cls': k, 'name': 'both', 'const': True,
                  'params': [(('ptr', t), 'p', None), (('ptr', u), 'q', None)],
                  'ret': ('pair', ('same', t, 0), ('same', u, 1))})
+        if rng.random() < 0.5:
+            t, u = T(), T()
+            if rng.random() < 0.5:
+                u = t
+            add({'kind': 'method', 'cls': k, 'name': 'twins', 'const': True,
+                 'params': [(('ref', t), 'r', None), (('ref', u), 'q', None)],
+                 'ret': ('pair', ('copy', t, 0), ('copy', u, 1))})
+        if rng.random() < 0.6:
+            # 64-bit keys: in, and out again (result = k + serial + 2*n, kept below 2^63 by the history generator)
+            add({'kind': 'method', 'cls': k, 'name': 'key', 'const': True,
+                 'params': [('size_t', 'n', None)], 'ret': 'size_t'})
         if rng.random() < 0.6:
             add({'kind': 'static', 'cls': k, 'name': 'Create',
                  'params': [('int', 'a', None)], 'ret': ('fresh', k, rng.choice(descendants(k)))})
@@ -313,12 +324,17 @@ inline int& nextSerial() { static int s = 0; return s; }
 inline std::vector<long>& live() { static std::vector<long> v(%(nclasses)d, 0); return v; }
 inline long& destroyedTotal() { static long d = 0; return d; }
 
+// (new serial, serial of the object it is - transitively - a copy of), in creation order
+inline std::vector<std::pair<int, int>>& copies() { static std::vector<std::pair<int, int>> c; return c; }
+
 struct Tracked {
   int serial;
   int dyn;
   bool counted;
-  explicit Tracked(int d) : serial(nextSerial()++), dyn(d), counted(true) { live()[dyn]++; }
-  explicit Tracked(Untracked) : serial(-1), dyn(-1), counted(false) {}
+  int origin;
+  explicit Tracked(int d) : serial(nextSerial()++), dyn(d), counted(true), origin(serial) { live()[dyn]++; }
+  explicit Tracked(Untracked) : serial(-1), dyn(-1), counted(false), origin(-1) {}
+  void copiedFrom(const Tracked& o) { if (o.origin < 0) return; origin = o.origin; copies().push_back({serial, origin}); }
   Tracked(const Tracked&) = delete;
   Tracked& operator=(const Tracked&) { return *this; }
   virtual ~Tracked() { if (counted) { live()[dyn]--; destroyedTotal()++; } }
@@ -329,6 +345,7 @@ inline std::map<int, std::vector<std::shared_ptr<Tracked>>>& keeper() {
 }
 
 inline std::string show(int v) { return std::to_string(v); }
+inline std::string show(size_t v) { return std::to_string(v); }
 inline std::string show(double v) { std::ostringstream o; o << (long long)v; return o.str(); }
 inline std::string show(const std::string& v) { return "'" + v + "'"; }
 inline std::string show(const Tracked& v) { return "@" + std::to_string(v.serial); }
@@ -336,6 +353,7 @@ inline std::string show(const Tracked* v) { return "@" + std::to_string(v->seria
 template <class T> std::string show(const std::shared_ptr<T>& v) { return show(static_cast<const Tracked&>(*v)); }
 
 inline long val(int v) { return v; }
+inline long val(size_t v) { return (long)v; }
 inline long val(double v) { return (long)v; }
 inline long val(const std::string& v) { return (long)v.size(); }
 inline long val(const Tracked& v) { return v.serial; }
@@ -424,7 +442,7 @@ def lib_text(U):
         out.append('  explicit %s(c11::Fresh) : %s {%s }' % (c['name'], init_k, init_props))
         out.append('  explicit %s(c11::Untracked u) : %s {}' %
                    (c['name'], ('::%s(u)' % base) if base else 'c11::Tracked(u)'))
-        out.append('  %s(const %s&) : %s {%s }' % (c['name'], c['name'], init_k, init_props))
+        out.append('  %s(const %s& o_) : %s { copiedFrom(o_);%s }' % (c['name'], c['name'], init_k, init_props))
         out.append('  %s& operator=(const %s&) { return *this; }' % (c['name'], c['name']))
         out.append(' protected:')
         out.append('  explicit %s(c11::Dyn d) : %s {%s }' % (c['name'], init_d, init_props))
@@ -479,6 +497,10 @@ def lib_text(U):
             pass
         elif r in SCALARS:
             lines.append('  return (%s)r_;' % r)
+        elif r[0] == 'pair' and r[1][0] == 'copy':
+            # prvalue pair: members copy-constructed from the parameters, first then second, no temporaries
+            lines.append('  return std::pair<::%s, ::%s>(%s, %s);' % (
+                classes[r[1][1]]['cpp'], classes[r[2][1]]['cpp'], e['params'][r[1][2]][1], e['params'][r[2][2]][1]))
         elif r[0] == 'pair':
             lines.append('  return std::make_pair(%s, %s);' % (ret_expr(r[1], e), ret_expr(r[2], e)))
         else:
